@@ -58,6 +58,7 @@ type HistCfg struct {
 	MultiSwap     bool // several swaps / channels / spellings
 	BigMines      bool
 	NoInitialSwap bool
+	SlowPays      bool // payment calls that block longer than the retry budget
 	Weights       map[string]int
 }
 
@@ -367,6 +368,11 @@ func (h *Hist) actPayPlan() {
 	n := rapid.SampledFrom(h.nodes()).Draw(t, "pnode")
 	kind := rapid.SampledFrom([]string{"claim", "claim", "fee"}).Draw(t, "pkind")
 	outs := rapid.SliceOfN(rapid.SampledFrom([]sim.PayOutcome{sim.PaySuccess, sim.PayFailClean, sim.PayFailClean, sim.PayErrPending, sim.PayErrSettled}), 1, 4).Draw(t, "outcomes")
+	if h.Cfg.SlowPays && kind == "claim" && rapid.IntRange(0, 5).Draw(t, "slowPay") == 0 {
+		// a payment call that blocks longer than the retry budget before it succeeds
+		outs[rapid.IntRange(0, len(outs)-1).Draw(t, "slowIdx")] = sim.PaySlowSuccess
+		h.class("payplan:slow-success")
+	}
 	n.PayPlan[kind] = outs
 	h.opf("payplan(%s,%s,%v)", n.Name, kind, outs)
 	// blocks may arrive while the retry loop runs
